@@ -302,6 +302,26 @@ rt!(k_rt_ip4, FieldDataType::Ip4Addr, 4, 4);
 rt!(k_rt_ip6, FieldDataType::Ip6Addr, 16, 16);
 rt!(k_rt_float64, FieldDataType::Float64, 8, 8);
 rt!(k_rt_vec_7, FieldDataType::Vec, 7, 7);
+/// K.rt.string_ascii_2 -- a 2-byte string field holding ASCII (valid UTF-8, NUL included) re-exports its 2 bytes.
+/// `String::from_utf8_lossy` is replaced by its behaviour on valid UTF-8 (the identity), which is all an ASCII input
+/// exercises: CBMC exhausts memory on the real validation loop.
+fn lossy_on_valid_utf8(v: &[u8]) -> std::borrow::Cow<'_, str> {
+    std::borrow::Cow::Borrowed(unsafe { std::str::from_utf8_unchecked(v) })
+}
+#[kani::proof]
+#[kani::stub(std::string::String::from_utf8_lossy, lossy_on_valid_utf8)]
+#[kani::unwind(6)]
+fn k_rt_string_ascii_2() {
+    let buf: [u8; 2] = kani::any();
+    kani::assume(buf[0] < 0x80 && buf[1] < 0x80);
+    if let Ok((rest, v)) = FieldValue::from_field_type(&buf[..], FieldDataType::String, 2) {
+        assert!(rest.is_empty());
+        match v.to_be_bytes() {
+            Ok(out) => { assert!(out.len() == 2, "re-exported width differs"); assert!(out[0] == buf[0] && out[1] == buf[1], "re-exported byte differs"); }
+            Err(_) => assert!(false, "to_be_bytes failed"),
+        }
+    } else { assert!(false, "decode failed on a full buffer"); }
+}
 rt!(k_rt_protocol, FieldDataType::ProtocolType, 1, 1);
 rt!(k_rt_dur_secs_4, FieldDataType::DurationSeconds, 4, 4);
 rt!(k_rt_dur_secs_8, FieldDataType::DurationSeconds, 8, 8);
